@@ -69,9 +69,9 @@ constant; nobody rejects the invalid recursive type). Stack-overflow sites are n
 "C08": """Q 700 packages × (5 in-process + 1 other-process compilations) / T 20 000. One known finding: gogen reports
 "label X defined and not used" in map-iteration order. An ad-hoc mutant (files sorted by name length instead of
 name) is caught in all package kinds.
-*Open gap (wave 10, `seeded/C08d`, not detected):* project class files loaded in map order — only visible in a package with
-two project files of different class frameworks (`App.tgmx` + `Game.t2gmx`); the generated class projects have exactly
-one project file. Strengthening: register a second framework in the harness's LookupClass and generate such packages.""",
+After a wave-10 change was missed (`seeded/C08d`: project class files loaded in map order), half of the class-project
+packages carry a second project file of another class framework (`Game.tgmx` + `App.t2gmx`), the only shape in which
+more than one project file exists.""",
 "C09": """Q 40 programs / T 1 500 (≈25 statements each). Two defects fixed (a function loaded on demand clobbered the pending
 //line comment of the calling statement; lambda bodies inherited the enclosing statement's line), one known (a var
 declaration under a multi-line block comment, probe). Round-0 deviation: run-time function entry lines
